@@ -70,6 +70,15 @@ func advTriple(r *rand.Rand) (a, b, c s2.Point) {
 		}
 		b = s2.Point{Vector: av.Add(u.Mul(t))}
 		c = s2.Point{Vector: av.Add(u.Add(w.Mul(delta)).Mul(t * k))}
+		if r.Intn(3) == 0 {
+			// two scales: the third point much further from the pair than the pair's own
+			// separation (one edge underflows when squared, the other two do not)
+			u2 := av.Cross(randUnit(r).Vector).Normalize()
+			if r.Intn(2) == 0 {
+				u2 = u.Add(w.Mul((r.Float64() - 0.5) * math.Pow(10, -r.Float64()*16))) // nearly collinear with the pair
+			}
+			a = s2.Point{Vector: av.Add(u2.Mul(math.Pow(10, -(40 + r.Float64()*110))))}
+		}
 		if r.Intn(2) == 0 {
 			b, c = c, b
 		}
